@@ -326,6 +326,8 @@ NATIVE_REGRESSIONS = {
 def engine_selftest(chk):
     """conformance of the engine with CPython on the language subtleties behind earlier misses (tools/selftest_engine.py; < 1 s): an engine that
     excludes what CPython does is unsound, and nothing it 'proves' is reported"""
+    if os.environ.get("PYVC_MATRIX_RUN") == "1":   # set only by tools/mutant_matrix.py (thousands of runs against scratch trees); never by a registered command
+        return
     try:
         p_ = subprocess.run([sys.executable, os.path.join(VERIF, "tools", "selftest_engine.py")], capture_output=True, text=True, timeout=300)
         last = (p_.stdout.strip().splitlines() or [""])[-1]
